@@ -299,6 +299,7 @@ class FPTranslator(ast.NodeVisitor):
     def __init__(self, eb, sb):
         self.sort = f"(_ FloatingPoint {eb} {sb})"
         self.eb, self.sb = eb, sb
+        self.env = {}            # names bound by earlier assignments of the same block (c = a / b; c = f(c))
 
     def zero(self):
         return f"(_ +zero {self.eb} {self.sb})"
@@ -313,9 +314,9 @@ class FPTranslator(ast.NodeVisitor):
 
     def tr(self, n):
         if isinstance(n, ast.Name):
-            return n.id
+            return self.env.get(n.id, n.id)
         # sub-expressions that do not mention the operands are constants: evaluate them with numpy
-        if not any(isinstance(x, ast.Name) and x.id in ('a', 'b') for x in ast.walk(n)) and not isinstance(n, ast.Constant):
+        if not any(isinstance(x, ast.Name) and x.id in ('a', 'b', 'c') for x in ast.walk(n)) and not isinstance(n, ast.Constant):
             try:
                 val = eval(compile(ast.Expression(n), '<const>', 'eval'), {'np': np, 'float': float, 'abs': abs})
                 return self.lit(float(val))
@@ -356,6 +357,15 @@ class FPTranslator(ast.NodeVisitor):
                 return f"(ite {self.tr(c)} {self.tr(x)} {self.tr(y)})"
             if f == 'np.zeros_like':
                 return self.zero()
+            if f in ('np.isfinite', 'np.isnan', 'np.isinf', 'math.isfinite', 'math.isnan', 'math.isinf'):
+                x = self.tr(n.args[0])
+                return {'isfinite': f"(not (or (fp.isNaN {x}) (fp.isInfinite {x})))", 'isnan': f"(fp.isNaN {x})",
+                        'isinf': f"(fp.isInfinite {x})"}[f.split('.')[1]]
+            if f in ('np.nan_to_num',) and len(n.args) == 1 and not n.keywords:
+                x = self.tr(n.args[0])
+                big = self.lit(np.finfo(np.float64 if self.sb == 53 else np.float32).max)
+                return (f"(ite (fp.isNaN {x}) {self.zero()} (ite (fp.isInfinite {x}) "
+                        f"(ite (fp.isNegative {x}) (fp.neg {big}) {big}) {x}))")
         raise ValueError(ast.dump(n))
 
 
@@ -363,19 +373,31 @@ def safe_division_fp(report, tier):
     from aurel import maths
     src = textwrap.dedent(inspect.getsource(maths.safe_division))
     tree = ast.parse(src)
-    exprs = []
+    # one chain of assignments to c per statement list (c = a / b; c = np.where(f(c), c, 0.0) is one value expression)
+    chains = []
     for node in ast.walk(tree):
-        if isinstance(node, ast.Assign) and len(node.targets) == 1 and ast.unparse(node.targets[0]) == 'c':
-            exprs.append(node.value)
-    if len(exprs) != 3:
-        report.harness_errors.append(f"safe_division: expected 3 value expressions, found {len(exprs)}")
+        for fld in ('body', 'orelse'):
+            stmts = getattr(node, fld, None)
+            if not isinstance(stmts, list):
+                continue
+            chain = [st.value for st in stmts if isinstance(st, ast.Assign) and len(st.targets) == 1
+                     and ast.unparse(st.targets[0]) == 'c']
+            if chain:
+                chains.append(chain)
+    if len(chains) != 3:
+        report.harness_errors.append(f"safe_division: expected 3 value expressions, found {len(chains)}")
         return
     widths = [(11, 53)] + ([(8, 24)] if tier == 'thorough' or True else [])
     for eb, sb in widths:
         trn = FPTranslator(eb, sb)
-        for k, e in enumerate(exprs):
+        for k, chain in enumerate(chains):
+            e = chain[-1]
             try:
-                res = trn.tr(e)
+                trn.env = {}
+                for e_ in chain:
+                    res = trn.tr(e_)
+                    trn.env = {'c': res}
+                trn.env = {}
             except ValueError as ex:
                 report.harness_errors.append(f"safe_division expression {k} not translatable: {ex}")
                 continue
@@ -391,7 +413,7 @@ def safe_division_fp(report, tier):
                          "(check-sat)\n(get-value (a b))\n")
             for nm, q in (('zero-divisor gives +0', q1), ('non-zero divisor gives a/b', q2)):
                 v, vals, dt = solver.run_script(q, timeout_s=120, backend='z3new', tag='fp')
-                name = f"safe_division[{ast.unparse(e)}] Float{eb + sb}: {nm}"
+                name = f"safe_division[{'; '.join(ast.unparse(x) for x in chain)}] Float{eb + sb}: {nm}"
                 report.record(name, v, round(dt, 3), 'z3new', sha=str(hash(q) & 0xffffffff),
                               group='safe_division (QF_FP)', kind='fp')
                 if v == 'sat':
